@@ -4,12 +4,16 @@
    the other end of the data channel authenticates with a key: M's (the signaled peer) or another key K.
    Expected: the link is established iff the other end authenticates as M, and then names M. *)
 EXTENDS Naturals, Sequences, FiniteSets, TLC, Json, SequencesExt, IOUtils
-Cases == [role : {"offerer", "answerer"}, auth : {"signaled", "other"}, rep : 0..2]
-Expected(c) == [link |-> c.auth = "signaled"]
+LinkCases == [kind : {"link"}, role : {"offerer", "answerer"}, auth : {"signaled", "other"}, rep : 0..2]
+\* the roles the two ends of one session take, for every combination of the per-node options that may influence them:
+\* exactly one end is the offerer whatever the configuration
+RoleCases == [kind : {"roles"}, aNoListen : BOOLEAN, bNoListen : BOOLEAN, rep : 0..2]
+Cases == LinkCases \cup RoleCases
+Expected(c) == IF c.kind = "link" THEN [link |-> c.auth = "signaled"] ELSE [offerers |-> 1]
 VARIABLE c
 Init == c \in Cases
 Next == UNCHANGED c
 Spec == Init /\ [][Next]_c
-OnlySignaled == Expected(c).link => c.auth = "signaled"
+OnlySignaled == c.kind = "link" => (Expected(c).link => c.auth = "signaled")
 ASSUME JsonSerialize(IOEnv.OUT, SetToSeq({[in |-> x, out |-> Expected(x)] : x \in Cases}))
 =============================================================================
